@@ -1,6 +1,6 @@
 From Coq Require Import Extraction ExtrOcamlBasic.
-From LCP Require Import Base.ExtractBase Base.CheckedMem Gen.Repo_json Util.Json Util.JsonSpec.
+From LCP Require Import Base.ExtractBase Base.CheckedMem Gen.Repo_json Util.Json Util.JsonSpec Util.JsonRepo.
 Extraction Language OCaml.
 Extraction "json.ml" force_number_types
-  json_numchars json_wsbytes json_literals json_escapes
-  json_find_m render wf rfc_valid find_spec.
+  json_find_c json_find_old skip_value_c
+  render wf rfc_valid is_wsl value_end_ok find_spec.
